@@ -60,8 +60,8 @@ class TracepointConfigService:
         self._task_handler = None
         self._listeners: List[ConfigUpdateListener] = []
         self._update_lock = threading.Lock()
-        # re-entrant: the thread inside add_custom / remove_custom can get here again (a signal handler or a finalizer of
-        # the application that uses another handle) and must not wait for itself
+        # re-entrant: the thread inside add_custom / remove_custom can get here again (a signal handler or a finalizer
+        # of the application that uses another handle) and must not wait for itself
         self._custom_lock = threading.RLock()
 
     def reinstall(self):
